@@ -102,8 +102,10 @@ def find(prop, violation):
     return _cache[name]
 
 
-def run_finders(names, timeout=1800):
-    """thorough tier: run several finders in one build of the real crate; returns {name: result}"""
+def run_finders(names, timeout=1800, regress_prop=None):
+    """thorough tier: run several finders in one build of the real crate; returns {name: result}.
+    With regress_prop the regression replays of that property (replay/fixed/<prop>_*.rs, compiled into the crate as
+    verif_hooks::regress) are run in the same build directory; their result is returned under the key '__regress__'."""
     cache = os.environ.get('VX_TARGET_CACHE')
     target = cache or tempfile.mkdtemp(prefix='vx_replay_', dir=os.environ.get('VX_SCRATCH', '/var/tmp'))
     env = dict(os.environ, STAM_VERIF_DIR=VERIF, RUSTFLAGS='--cfg stam_verif', CARGO_NET_OFFLINE='true')
@@ -136,7 +138,47 @@ def run_finders(names, timeout=1800):
                 res['note'] = 'finder did not run to completion: ' + txt[-400:]
             out[name] = res
             _cache[name] = dict(res, note=res.get('note', 'finder enumerated its small-input space through the real code without finding a failing input'))
+        if regress_prop:
+            out['__regress__'] = _run_regress(regress_prop, target, env, timeout)
     finally:
         if not cache:
             shutil.rmtree(target, ignore_errors=True)
     return out
+
+
+def regress_files(prop):
+    d = os.path.join(VERIF, 'replay', 'fixed')
+    return sorted(f for f in os.listdir(d) if f.startswith(prop + '_') and f.endswith('.rs'))
+
+
+def _run_regress(prop, target, env, timeout):
+    files = regress_files(prop)
+    cmd = ['cargo', 'test', '--offline', '--manifest-path', os.path.join(gen.REPO, 'Cargo.toml'), '--target-dir', target,
+           '--lib', 'verif_hooks::regress::' + prop.lower() + '_']
+    res = dict(cmd=' '.join(cmd), files=files, failed=[], passed=0, completed=False)
+    if not files:
+        res['completed'] = True
+        return res
+    try:
+        p = subprocess.run(cmd, capture_output=True, text=True, env=env, timeout=timeout)
+        txt = p.stdout + p.stderr
+    except subprocess.TimeoutExpired:
+        txt = 'TIMEOUT'
+    for ln in txt.splitlines():
+        m = re.match(r'test verif_hooks::regress::(\w+)::(\S+) \.\.\. (ok|FAILED)', ln)
+        if not m:
+            continue
+        if m.group(3) == 'ok':
+            res['passed'] += 1
+        else:
+            # the message of the failed assertion
+            msg = ''
+            k = txt.find(f"---- verif_hooks::regress::{m.group(1)}::{m.group(2)} stdout ----")
+            if k >= 0:
+                msg = txt[k:k + 1500]
+            fname = next((f for f in files if re.sub(r'[^a-z0-9_]', '_', f[:-3].lower()) == m.group(1)), m.group(1))
+            res['failed'].append(dict(replay='replay/fixed/' + fname, test=m.group(2), output=msg))
+    res['completed'] = bool(re.search(r'^test result: ', txt, re.M)) and (res['passed'] + len(res['failed']) > 0)
+    if not res['completed']:
+        res['note'] = txt[-600:]
+    return res
